@@ -18,4 +18,54 @@ void set_max_control_stream_bytes(std::size_t bytes) {
     g_control_stream_limit.store(effective, std::memory_order_relaxed);
 }
 
+std::string escape_control_value(std::string_view value) {
+    std::string escaped;
+    escaped.reserve(value.size());
+    for (const char ch : value) {
+        switch (ch) {
+            case '\\':
+                escaped += "\\\\";
+                break;
+            case '\n':
+                escaped += "\\n";
+                break;
+            case '\r':
+                escaped += "\\r";
+                break;
+            default:
+                escaped.push_back(ch);
+                break;
+        }
+    }
+    return escaped;
+}
+
+std::string unescape_control_value(std::string_view value) {
+    std::string plain;
+    plain.reserve(value.size());
+    for (std::size_t i = 0; i < value.size(); ++i) {
+        if (value[i] != '\\' || i + 1 == value.size()) {
+            plain.push_back(value[i]);
+            continue;
+        }
+        const char next = value[++i];
+        switch (next) {
+            case 'n':
+                plain.push_back('\n');
+                break;
+            case 'r':
+                plain.push_back('\r');
+                break;
+            case '\\':
+                plain.push_back('\\');
+                break;
+            default:
+                plain.push_back('\\');
+                plain.push_back(next);
+                break;
+        }
+    }
+    return plain;
+}
+
 }  // namespace ephemeralnet::daemon
